@@ -5,16 +5,16 @@ CONSTANTS Weights = {50, 100}
  MaxSigs = 2
  TamperFields = {"amount"}
  PayCfgs <- McPlainOnly
- PaySenders <- McPlainOnly
+ PaySenders <- McNegCfgs
  PayFields = {"gasPrice"}
  GpFields = {"gasPrice"}
  MaxOver = 3
  BoxCfgs <- McPlainOnly
  Kinds = {}
- ReconfCfgs <- McPlainOnly
+ ReconfCfgs <- McNegCfgs
  NewCfgs <- McNegNew
- Slices = {"sigs", "reconf", "stale"}
- Dev = {"Neg_StaleSigners"}
+ Slices = {"over"}
+ Dev = {"Neg_PayerSignsFirstSig"}
 VIEW View
-PROPERTIES EffectOnlyIfAuthorized
+PROPERTIES PayerBindsSigList
 CHECK_DEADLOCK FALSE
